@@ -1,6 +1,7 @@
 import SudsModel.Driver.Util
 import SudsModel.Driver.C19
 import SudsModel.Xml.Prefix
+import SudsModel.Lemmas.Promote
 namespace Suds.Driver.C05
 open Lean Suds.Driver Suds.Xml Suds.Driver.C19
 
@@ -20,6 +21,11 @@ def handle : Handler := fun op j =>
     -- Binding.get_message with prefixes=True: body.normalizePrefixes(); env.promotePrefixes()
     let env := elemOf (jget j "tree")
     some (elemJson ((normalizeChild (assignOf j) env (jnat j "body")).promote true))
+  | "prefix.wf" =>
+    -- does the tree meet the hypothesis of promote_preserves_infoset, and does the model's pass keep its infoset
+    let t := elemOf (jget j "tree")
+    some (Json.mkObj [("wf", Json.bool t.wellFormed),
+      ("preserved", Json.bool (((t.promote true).info []).beq (t.info [])))])
   | "prefix.nsuris" => some (Json.arr (((elemOf (jget j "tree")).nsUris.map Json.str).toArray))
   | _ => none
 
